@@ -119,9 +119,17 @@ func (e *Engine) allowedOpaqueFn(fn *ssa.Function) bool {
 	case "os":
 		n := fn.Name()
 		switch n {
-		case "IsNotExist", "IsExist", "IsPermission", "underlyingErrorIs", "underlyingError", "Error", "Unwrap", "Timeout", "Is",
+		case "IsPathSeparator", "IsTimeout", "NewSyscallError", "IsNotExist", "IsExist", "IsPermission", "underlyingErrorIs", "underlyingError", "Error", "Unwrap", "Timeout", "Is",
 			"IsDir", "IsRegular", "Perm", "Type", "String", "Name", "Mode", "Size", "ModTime", "Sys":
 			return true
+		}
+	case "google.golang.org/protobuf/proto":
+		// wrappers.go: func Uint64(v uint64) *uint64 { return &v } and friends — pure, no package state
+		if fn.Signature.Recv() == nil {
+			switch fn.Name() {
+			case "Bool", "Int32", "Int64", "Uint32", "Uint64", "Float32", "Float64", "String":
+				return true
+			}
 		}
 	}
 	return false
